@@ -13,6 +13,7 @@ BUILTIN = {
     'std::ops::RangeFrom': [('RangeFrom', ['start'], 0)],
     'std::ops::RangeInclusive': [('RangeInclusive', ['start', 'end', 'exhausted'], 0)],
     'std::ops::RangeFull': [('RangeFull', [], 0)],
+    'std::ops::RangeToInclusive': [('RangeToInclusive', ['end'], 0)],
     'std::pin::Pin': [('Pin', ['pointer'], 0)],
     'std::net::IpAddr': [('V4', ['0'], 0), ('V6', ['0'], 1)],
 }
@@ -45,7 +46,7 @@ class Adts:
         if json_path:
             self.load(json_path, crate_prefix)
 
-    def load(self, json_path, crate_prefix=''):
+    def load(self, json_path, crate_prefix='', harness=False):
         d = json.load(open(json_path))
         idx = d['index']
         paths = d['paths']
@@ -84,6 +85,8 @@ class Adts:
                 else:
                     fields = [str(i) for i, _ in enumerate(kind['tuple'])]
                 self.defs[full] = [(it['name'], fields, 0)]
+        if harness:
+            return
         # re-exports: walk the module tree
         root = idx[str(d['root'])]
 
